@@ -4,8 +4,11 @@ CONSTANTS
   Design = "filepos"
   ReadRule = "written"
   UnsetSpace <- NoUnset
+  ScalarRule = "fill_is_unset"
+  DfltSpace <- SomeDflt
   LayoutSpace <- OneLayout
 INVARIANT NoWriteError
 INVARIANT RoundTrip
+INVARIANT ScalarRoundTrip
 INVARIANT SpeciesExact
 CHECK_DEADLOCK FALSE
